@@ -70,6 +70,7 @@ def run_impl(c, pool, scratch):
     else:
         kw["num_workers"] = c["w"]
         kw["mp_start_method"] = c["pool"]
+        kw.update(c.get("extra", {}))
     try:
         with time_limit(120):
             if c["api"] == "map":
@@ -161,6 +162,9 @@ def run_map(run, drv):
                 for i in range(6 if quick else (24 if method == "fork" else 5)):
                     cc = gen_case(rng)
                     cc["pool"] = method
+                    # the options of the pool map creates: workers recycled after 1-2 tasks (the remaining chunks go to fresh
+                    # processes), several threads per worker, progress-bar wrapper
+                    cc["extra"] = [{}, {"max_tasks_per_child": 1}, {"max_tasks_per_child": 2, "worker_threads": 2}, {"pbar": True, "worker_threads": 2}][i % 4]
                     cases.append(cc)
                 # out buffers longer than the input along the dim (regular: tail untouched)
                 for i in range(8 if quick else 40):
